@@ -426,13 +426,19 @@ class StereoCondensedReactionGraph(StereoMolGraph, CondensedReactionGraph):
 
             rev_reac.set_atom_stereo_change(**new_atom_change_dict)
 
-        for _bond, bond_change_dict in rev_reac._bond_stereo_change.items():
+        for bond, bond_change_dict in rev_reac._bond_stereo_change.items():
             new_bond_change_dict = {
-                "fleeting": bond_change_dict[Change.FLEETING],
-                "broken": bond_change_dict[Change.FORMED],
-                "formed": bond_change_dict[Change.BROKEN],
+                Change.FLEETING: bond_change_dict[Change.FLEETING],
+                Change.BROKEN: bond_change_dict[Change.FORMED],
+                Change.FORMED: bond_change_dict[Change.BROKEN],
             }
-            rev_reac.set_bond_stereo_change(**new_bond_change_dict)
+            # written directly (as enantiomer() does): the bond under a
+            # stereo change may have been removed from the graph
+            rev_reac._bond_stereo_change[bond] = ChangeDict(
+                (change, stereo)
+                for change, stereo in new_bond_change_dict.items()
+                if stereo is not None
+            )
 
         return rev_reac
 
